@@ -31,7 +31,7 @@ GENERIC = {
  "C16": "Coq invariant (every request/response/marker belongs to the current batch of an existing context with a pending expiry; a context without pending expiry has no records) + cleanup and finished-context-removed theorems + correspondence on req, ctx",
  "C17": "Coq refinement of every query code path (gRPC and legacy) to a comprehension over the state, hypotheses discharged for reachable states + differential check of all queries on sampled existing/non-existing arguments against raw store scans and the extracted model",
  "C18": "Coq theorems over the key layer regenerated from types/keys.go on every run (injectivity per family, family disjointness, exactness of every prefix scan, refutations where a scan is not exact) and over the ID functions (length, round trip, injectivity) + pure key stream (50k cases) against the real functions, carrying the key monitor (implementation-only search for two calls with equal key bytes / a subspace matching a foreign record, on the domains of the theorems, with crafted boundary-shift, bech32-extension and prefix-related arguments: the failing input of a key-layer change is a replayable pair of calls)",
- "C19": "Coq theorems on the modelled export / zero-height preparation / import (every pending fee to its consumer, every earning to its provider, escrow emptied, contexts reset, export validates, export-import-export round trip, indexes rebuilt) + differential check of the real export-validate-JSON-import pipeline into a second app",
+ "C19": "Coq theorems (hypotheses discharged from the invariant for every reachable state; the chain restarted from the imported zero-height genesis satisfies the invariant again, exactly when no one-shot context was in flight, and keeps it) on the modelled export / zero-height preparation / import (every pending fee to its consumer, every earning to its provider, escrow emptied, contexts reset, export validates, export-import-export round trip, indexes rebuilt) + differential check of the real export-validate-JSON-import pipeline into a second app",
  "C20": "Coq theorem that no message handler and no call inside EndBlock reaches a Panic branch or a dropped error from a reachable state (under the recorded exclusions X-K1 and X-K6, each with a refutation witness and an input-only form; supply never increases; every amount the module adds or compares is below 2^255 when the genesis supply is) + panic-site census of the source against a reviewed baseline + double replay in fresh app instances comparing store digests after every step",
 }
 
